@@ -200,6 +200,54 @@ def check_reinit(report, db, F, recs, ref, R4):
     # (b) extension of the record list, then rebuild
     recs_val = F.module_global(m, 'KNOWN_MINECRAFT_VERSION_RECORDS')
     ntc = recs_val[0].ntc
+    # contexts that exist before the extension must keep comparing
+    # chronologically afterwards (nothing about the order may be cached)
+    old_known = list(F.tables()['KNOWN_PROTOCOL_VERSIONS'])
+    probes = [old_known[len(old_known) // 2], old_known[-1]]
+    old_ctx = {v: F.context(v) for v in probes}
+    mid = len(recs) // 2
+    ins = ('50w50a', PRE | 123456, True)
+    recs_val.insert(mid, NTVal(ntc, list(ins)))
+    call(use_known_records=True)
+    ref_ins = reference_projection(recs[:mid] + [ins] + recs[mid:])
+    compare_tables(report, R4, F.tables(), ref_ins, None, db,
+                   'after inserting a record in mid-list and rebuilding')
+    pos_new = {p: i for i, p in enumerate(
+        ref_ins['KNOWN_PROTOCOL_VERSIONS'])}
+    ctxci = db.get_class('minecraft.networking.connection',
+                         'ConnectionContext')
+    others = [old_known[0], recs[mid - 1][1], ins[1], recs[mid][1],
+              old_known[-1]]
+    stale = None
+    for v, ctx in old_ctx.items():
+        for name, rel_ in (('protocol_earlier', lambda a, b: a < b),
+                           ('protocol_earlier_eq', lambda a, b: a <= b),
+                           ('protocol_later', lambda a, b: a > b),
+                           ('protocol_later_eq', lambda a, b: a >= b)):
+            fi = db.find_method(ctxci, name)
+            for o in others:
+                try:
+                    got = F.call(FuncVal(fi, bound=ctx), [o], {}, fi.node,
+                                 Env(fi.module))
+                except FoldRaise as e:
+                    got = 'raises %s' % e.exc_type
+                want = rel_(pos_new[v], pos_new[o])
+                if got is not want and stale is None:
+                    stale = (v, name, o, got, want, fi)
+    if stale is None:
+        report.ok(R4, 'contexts created before a mid-list extension compare '
+                  'by the rebuilt order')
+    else:
+        v, name, o, got, want, fi = stale
+        report.violation(R4, 'stale-context:%s' % name, fi.path, fi.node,
+                         'ConnectionContext.' + name,
+                         'a context for %r created before the records were '
+                         'extended answers %s(%r) = %r after the rebuild; the '
+                         'rebuilt order says %r (something about the order '
+                         'is cached outside the rebuilt tables)'
+                         % (v, name, o, got, want))
+    del recs_val[mid]
+    call(use_known_records=True)
     extra = [('9.9-verif-a', 99990, True), ('9.9-verif-b', 99990, False),
              ('9.9.1', 99991, True), ('99w01a', PRE | 9999, True)]
     for e in extra:
